@@ -94,7 +94,7 @@ func sinkFaults(c *simkit.Choices, x *simkit.Ctx) *simkit.Violation {
 	if f == model.JSON {
 		opts = drawJSONOpts(c)
 	}
-	oo := model.OpsOpts{Extended: true, NonFinite: false, BigUint: true, Hints: true, MaxDepth: 3, Budget: 12, MaxStr: 40}
+	oo := model.OpsOpts{Extended: true, NonFinite: false, BigUint: true, Hints: true, MaxDepth: 3, Budget: 12, MaxStr: 40, DeepChains: true}
 	if x.Thorough {
 		oo.Budget, oo.MaxStr, oo.MaxDepth = 25, 200, 5
 	}
